@@ -32,6 +32,20 @@ fn main() {
             }
         }
     }
+    // emit-level contract
+    #[cfg(not(feature = "compact"))]
+    {
+        let (mut n2, mut bad2) = (0u64, 0u64);
+        for mind in [55usize, 58, 60, 100] { for nb in [-16i32, -13, -12, -5, -1] { for pb in [1i32, 9, 12, 13, 16] {
+            let o = match opts_for(mind, 0, nb, pb, false) { Some(o) => o, None => continue };
+            for sci in -324..=308 { for m in [1u64, 15, 12345678901234567, 99999999999999999, 5] {
+                n2 += 1; let o2 = o.clone();
+                let r = std::panic::catch_unwind(move || emit_in_bound(m, sci, &o2, nb, pb));
+                if !matches!(r, Ok(Ok(_))) { bad2 += 1; if bad2 < 6 { println!("  emit min={mind} breaks=({nb},{pb}) mant={m} sci={sci}: {:?}", r.map_err(|_| "PANIC")); } }
+            } }
+        } } }
+        println!("emit_in_bound: {n2} writes, {bad2} violations");
+    }
     for (l, c) in LOCS.lock().unwrap().iter() { println!("  panic site {l}: {c}"); }
     println!("sweep_bound: {n} writes, {bad} violations");
 }
